@@ -124,6 +124,9 @@ def read_graph(graph_raw) -> nx.DiGraph:
         u, v, w_str = elements
         try:
             w = float(w_str)
+            if not math.isfinite(w):
+                # float() also parses 'nan', 'inf', '-Infinity' and overflows such as '1e999'
+                raise ValueError(f"Weight is not a finite number: {w_str}")
         except ValueError:
             utils.logger.error(f"{__name__}: Invalid weight value in edge: {line.rstrip()}")
             raise
